@@ -56,6 +56,7 @@ type cluster struct {
 	hit        bool
 	deliveries []string
 	prevSecret map[uint64]*bls.SecretKey // the last share each sender sent (to someone else)
+	prevReply  map[uint64]*bls.SecretKey // the last share each recipient replied with (to someone else)
 	// deliver through the real gRPC receiver handlers (authenticated caller name in the context)
 	viaHandlers bool
 	// a non-peer caller sends every message first (it must be refused and change nothing)
@@ -292,10 +293,60 @@ func (r *router) SendContribution(ctx context.Context, recipient *core.Endpoint,
 	}
 	keep := secret
 	r.c.prevSecret[r.from] = &keep
+	var back bls.SecretKey
+	var backVec []bls.PublicKey
+	var err2 error
 	if r.c.viaHandlers {
-		return r.hContribute(ctx, n, account, secret, vVec)
+		back, backVec, err2 = r.hContribute(ctx, n, account, secret, vVec)
+	} else {
+		back, backVec, err2 = n.proc.OnContribute(ctx, r.from, account, secret, vVec)
 	}
-	return n.proc.OnContribute(ctx, r.from, account, secret, vVec)
+	if err2 != nil {
+		return back, backVec, err2
+	}
+	// the reply direction: what the recipient sends back to the executing instance
+	if r.c.tamper(fmt.Sprintf("reply %d>%d", recipient.ID, r.from)) {
+		switch r.c.kind {
+		case fLost:
+			return bls.SecretKey{}, nil, errLost
+		case fErrorReply:
+			return bls.SecretKey{}, nil, errors.New("error reply")
+		case fShareReplaced:
+			var delta bls.SecretKey
+			delta.SetByCSPRNG()
+			vsym.Assume(!delta.IsZero())
+			back.Add(&delta)
+		case fShareForOtherID:
+			if prev, ok := r.c.prevReply[recipient.ID]; ok {
+				vsym.Assume(!prev.IsEqual(&back))
+				back = *prev
+			} else {
+				r.c.hit = false
+			}
+		case fCommitmentAltered:
+			backVec = append([]bls.PublicKey(nil), backVec...)
+			var delta bls.SecretKey
+			delta.SetByCSPRNG()
+			vsym.Assume(!delta.IsZero())
+			backVec[len(backVec)-1].Add(delta.GetPublicKey())
+		case fVectorShortened:
+			if len(backVec) < 2 {
+				r.c.hit = false
+			} else {
+				back, backVec = consistentContribution(r.from, len(backVec)-1)
+			}
+		case fVectorExtended:
+			back, backVec = consistentContribution(r.from, len(backVec)+1)
+		default:
+			r.c.hit = false
+		}
+	}
+	if r.c.prevReply == nil {
+		r.c.prevReply = map[uint64]*bls.SecretKey{}
+	}
+	keepBack := back
+	r.c.prevReply[recipient.ID] = &keepBack
+	return back, backVec, nil
 }
 
 // consistentContribution builds a fresh polynomial of `terms` coefficients and the share for id: it verifies.
@@ -334,6 +385,7 @@ func messages(ids []uint64) []string {
 		for _, b := range ids {
 			if b > a {
 				out = append(out, fmt.Sprintf("contribute %d>%d", a, b))
+				out = append(out, fmt.Sprintf("reply %d>%d", b, a))
 			}
 		}
 	}
